@@ -206,7 +206,11 @@ def make_case(rng, i, ctx):
         perm = {key: rng.permutation(xs[key].shape[-1]).tolist() for key in keys}
         try:
             res2 = _quiet(lambda: run(list(reversed(keys)), perm))
-            cases.append({'id': cid + '-perm', 'ev': 'same', 'what': 'independent of the order of points and keys',
+            sig = []
+            for o in res2.fit_parameters:
+                o.gamma_method()
+                sig.append(rat(float(o.dvalue)))
+            cases.append({'id': cid + '-perm', 'ev': 'same', 'what': 'independent of the order of points and keys', 'sig': sig,
                           'rtol': '1/1000000' if method == 'Levenberg-Marquardt' and not numgrad else '1/1000',
                           'a': {'k': 'ok', 'p': rec['p']}, 'b': {'k': 'ok', 'p': [project_obs(o) for o in res2.fit_parameters]}})
         except Exception as e:  # noqa: BLE001
